@@ -64,6 +64,26 @@ CHECKS = {
    text="Hypothesis search over output sections (keywords, aliases, string/dict form, file-name and unit overrides, both bases) plus a complete enumeration of the documented keyword/alias table on both bases; files are re-read with an own parser: names, row/column labels, values x own unit factors, alias byte-identity, exactly the expected file set.",
    note="Keyword table hard-coded from the documentation; QHA's table layout parsed by vcij/tables.py.",
    technique="Hypothesis round-trip test (write, re-read with own parser, compare with in-memory results) + finite keyword enumeration", design="4/C15"),
+ "C16": dict(
+   text="Hypothesis search over pairs of nested dictionaries (key alphabet chosen so that keys collide at every depth) against a reference merge: user leaves kept, union of keys, inputs unmodified, idempotent; apply_default_config against an own load of the packaged defaults; JSON/.yml/.yaml round trips; configurations built from the documented field table accepted and every single-field perturbation rejected; complete enumeration field x perturbation kind; shipped files.",
+   note="Nothing is asserted where the schema is silent (DT<=0, unknown keys in qha.settings, 3.0 for an integer).",
+   technique="Hypothesis differential test vs reference merge + grammar-based valid/invalid configuration generation + finite field enumeration", design="4/C16"),
+ "C17": dict(
+   text="Hypothesis round trips: write_energy -> read_energy on arbitrary data sets (counts, signs, magnitudes to 1e5); own writer for static tables (key spellings, order, lattice block, trailing blanks) -> read_elast_data exact; `cij fill` stdout re-parsed and compared with the own symmetric completion for all nine systems (header/lattice text preserved).",
+   note="Written precision 6/4 decimals; pandas to_string precision for the command.",
+   technique="Hypothesis round-trip tests with own writers/parsers and a reference completion", design="4/C17"),
+ "C18": dict(
+   text="Hypothesis search over static data sets x modes none/volume/pressure x grid sizes 11-401 x options (-s, --cellmass, --delta-p-sample, with/without table): stdout table parsed and compared column by column with an own second-order finite-strain fit (F at the reported V, P=-dF/dV), own fits of the symmetry-completed table, VRH/velocities recomputed from the printed row, units, requested pressure rows.",
+   note="Adaptive tolerance where the command differentiates/interpolates numerically (error scale from the command's own grid size); printed precision 6 decimals.",
+   technique="Hypothesis differential test against an own EoS/elasticity reference on parsed command output", design="4/C18"),
+ "C19": dict(
+   text="Hypothesis search: tables written with qha's own writer from smooth g(T,P); `cij extract` must return exactly the nearest row/column labelled by the other coordinate for any request not within 1 % of a half-way point; `cij extract-geotherm` returns table entries at nodes, passes the geotherm's own columns through, and its error against g at least halves when the grid is refined.",
+   note="Printed precision of pandas to_string; convergence clause err(2n-1) <= err(n)/2 + print precision.",
+   technique="Hypothesis differential test (nearest-node oracle, analytic function + refinement metamorphic relation)", design="4/C19"),
+ "C20": dict(
+   text="Hypothesis search with planted structure: permutation + phases + bounded perturbation of real/complex unitary bases (unique assignment by construction) for the sort; planted unit eigenvectors behind arbitrary masses and row scales for the conversion; own writer in QE matdyn formats for the loader (exact printed values); dimension mismatches rejected.",
+   note="matdyn layout taken from QE's Fortran formats / the shipped test data; |component| <= 1 as in eigenvector files.",
+   technique="Hypothesis planted-solution tests + round trip through an own file writer", design="4/C20"),
 }
 NOT_APPLICABLE = {}
 
